@@ -194,6 +194,20 @@ int main(int argc, char **argv)
     auto gate = [&]() -> HandlerPtr {
         return FunctionFilterPtr::create([fatalPrefix](const LogMessage &m) { return !m.message().startsWith(fatalPrefix); });
     };
+    // "bgbusy": another thread is INSIDE the pipeline - and so holds the logger's mutex - for longer than any timeout a
+    // logging call could reasonably use when the fatal message arrives; the fatal call has to wait for it.  The busy
+    // handler comes first and keeps its marker message away from the sinks.
+    static std::atomic<bool> busyEntered { false };
+    const int busyMs = scn["bgbusy"].toInt(0);
+    if (busyMs > 0 && config != "oneline") {
+        logger << FunctionFilterPtr::create([busyMs](const LogMessage &m) {
+            if (!m.message().startsWith(QLatin1String("busy:")))
+                return true;
+            busyEntered.store(true);
+            std::this_thread::sleep_for(std::chrono::milliseconds(busyMs));
+            return false;
+        });
+    }
     if (config == "oneline") {
         const QJsonObject s = sinks.at(0).toObject();
         const QString path = QString::fromStdString(root) + "/" + s["sub"].toString() + "/" + s["file"].toString();
@@ -307,6 +321,12 @@ int main(int argc, char **argv)
         b["i"] = msgs.size();
         b["fatal"] = true;
         emitLine(b);
+    }
+    if (busyMs > 0 && config != "oneline") {
+        std::thread busy([] { logOne(QtDebugMsg, QStringLiteral("busy:marker")); });
+        for (int i = 0; i < 3000 && !busyEntered.load(); ++i)
+            std::this_thread::sleep_for(std::chrono::milliseconds(1));
+        busy.detach();
     }
     const QString fatalText = QString::fromUtf8(QByteArray::fromBase64(scn["fatal"].toString().toLatin1()));
     if (scn["fatalThread"].toString() == "thread") {
